@@ -306,6 +306,9 @@ func mustReach(from ssa.Instruction, target func(ssa.Instruction) bool, panics b
 
 // reachableFrom: is there a CFG path from instruction a to instruction b (a before b)?
 func reachableFrom(a, b ssa.Instruction) bool {
+	if a.Parent() != b.Parent() {
+		return reachableFromCross(a, b)
+	}
 	if a.Block() == b.Block() && instrIndex(a) < instrIndex(b) {
 		return true
 	}
